@@ -38,6 +38,9 @@ def eval_op(crate, key, opaque_extra=(), summarise=False):
     ev = crate.evaluator(max_steps=6000000) if summarise else crate.evaluator()
     if summarise:
         ev.summarise_loops = True
+        # interval invariants are artefacts of the analysis (they use the overflow assumptions that only the dev profile has);
+        # the comparison is about the loop's effect, so loop variables are left unconstrained
+        ev.loop_intervals = False
         ev.unroll_limit = 1100 if crate.name != "rand_jitter" else 100
     for d in OPAQUE:
         ev.no_inline.add(d)
